@@ -376,6 +376,30 @@ CLAIMS = {
                      'universally quantified unknown fields) + linear-form '
                      'comparison + must-pass-through (ast)',
     },
+    'C14': {
+        'text': 'Decides the reply discipline and codec agreement of SFTP: '
+                'in the server\'s _process_packet every normal path passes '
+                'the single send_packet(type, id, UInt32(id), response), '
+                'both values are definitely assigned, every error arm '
+                'answers FXP_STATUS and a catch-all exists; the request / '
+                'reply tables agree (return types ⊆ client handlers, all '
+                'standard requests and advertised extensions handled, each '
+                'of the 30 handlers\' result kind matches its registered '
+                'reply type); the client registers the waiter under the id '
+                'before writing, pops exactly that id, rejects replies of '
+                'the wrong type and completes futures only if not cancelled; '
+                'for each of SFTP v3–v6 the SFTPAttrs encoder and decoder '
+                'are reduced to ordered flag-keyed blocks of field-type '
+                'words (sub-blocks keyed by the same flag) and must be '
+                'equal, emitted flags must be valid for the version; fixed '
+                'records, SFTPName per version and 13 request bodies agree '
+                'writer ↔ reader; a malformed body gets FX_BAD_MESSAGE.',
+        'note': TB + 'not decided: reply matching under arbitrary arrival '
+                'orders beyond the id table; conformance with the filexfer '
+                'drafts beyond mutual agreement and the flag tables.',
+        'technique': 'must-pass-through + definite assignment + table '
+                     'agreement + per-version wire-schema extraction (ast)',
+    },
 }
 
 PENDING = 'check not built yet in this session (planned, see DESIGN.md section 5)'
